@@ -31,9 +31,10 @@ Definition hs_step (s : hs) (e : sevent) : hs * list sout :=
   | EvClosing => (* TcpConnection.disconnect() returns at once when no connection is running *)
     if is_connected s then ({| h_sm := h_sm s; h_queues := h_queues s; h_closing := true |}, []) else (s, [])
   | EvClosed =>
-    (* on_disconnecting: send_separate_req ; on_disconnected: state.disconnect() ; the connection object clears its flag *)
+    (* on_disconnecting: send_separate_req ; on_disconnected: state.disconnect(), everyone waiting for a response is released
+       (_cancel_open_transactions: they get none and remove their queues) ; the connection object clears its flag *)
     let '(s1, _) := request s "disconnect" in
-    ({| h_sm := h_sm s1; h_queues := h_queues s1; h_closing := false |}, [OutCtrl ST_SEPARATE 0])
+    ({| h_sm := h_sm s1; h_queues := []; h_closing := false |}, [OutCtrl ST_SEPARATE 0])
   | EvOpen stype system =>
     ({| h_sm := h_sm s; h_queues := (system, stype) :: h_queues s; h_closing := h_closing s |}, [OutCtrl stype system])
   | EvGiveUp system => (unqueue s system, [])
